@@ -84,3 +84,49 @@ install(globals(), 'C01', view, oracle,
                    'execution is covered by C13; the hierarchy/topology side of applying an update by C06/C08.',
         technique='Lean 4 invariant proof over the scheduler loop + event-trace correspondence',
         required=['exactly_once', 'applied_on_time', 'nothing_pending_after_run', 'quiet_invokes_nothing', 'accepted_applies_on_time'])
+
+
+# ------------------------------------------------------------------------------------------------
+# "serial or parallel execution of each process": some scenarios are run a second time with every
+# process as a real ParallelProcess worker; the emitted rows and the final state must be those of
+# the serial run (whose trace is checked event by event above).
+_generate0 = generate
+_run0 = run_impl
+_oracle0 = oracle
+_compare0 = compare
+
+
+def generate(rng, n, tier):
+    cases = list(_generate0(rng, n, tier))
+    extra = []
+    for _ in range(max(3, n // 25)):
+        c = sc.gen_scenario(rng, max_procs=3, steps_ok=False, emit_variants=False, p_quiet=0.5, max_calls=3)
+        for p in c['procs']:
+            p['parallel'] = True
+        c['par'] = True
+        extra.append(c)
+    return cases + extra
+
+
+def run_impl(case):
+    obs = _run0(case)
+    if case.get('par'):
+        par = sc.run_engine(case, parallel_ok=True)
+        obs['par'] = {'rows': [[ev['t'], ev['row']] for ev in par.get('log', []) if ev['e'] == 'emit'],
+                      'store': par.get('store'), 'raised': par.get('raised'), 'end_raised': par.get('end_raised'),
+                      'timeout': par.get('timeout')}
+    return obs
+
+
+def oracle(case, impl):
+    fails = list(_oracle0(case, impl))
+    par = impl.get('par') if isinstance(impl, dict) else None
+    if par:
+        if par.get('raised') or par.get('end_raised') or par.get('timeout'):
+            fails.append(f'parallel: the run with parallel processes failed: {par}')
+        else:
+            rows = [[ev['t'], ev['row']] for ev in impl.get('log', []) if ev['e'] == 'emit']
+            if par['rows'] != rows or par['store'] != impl.get('store'):
+                fails.append('parallel: with the same processes run in parallel the emitted values differ '
+                             f'(serial {str(rows)[:200]} / parallel {str(par["rows"])[:200]})')
+    return fails[:6]
